@@ -301,6 +301,18 @@ func c29DrawRule(t *rapid.T, cl *c29Cluster, label string) ([]networkingv1.Netwo
 	nq := rapid.SampledFrom([]int{0, 1, 1, 2, 3}).Draw(t, label+":nPorts")
 	for i := 0; i < nq; i++ {
 		p, k := c29DrawPort(t, fmt.Sprintf("%s:port%d", label, i))
+		// neighbouring numeric ports of the same protocol (adjacent, one apart, overlapping) exercise the
+		// port-list simplification
+		if i > 0 && ports[i-1].Port != nil && ports[i-1].Port.Type == intstr.Int && rapid.Bool().Draw(t, fmt.Sprintf("%s:port%d:nearPrevious", label, i)) {
+			prev := ports[i-1]
+			base := int(prev.Port.IntVal)
+			if prev.EndPort != nil && rapid.Bool().Draw(t, fmt.Sprintf("%s:port%d:afterRangeEnd", label, i)) {
+				base = int(*prev.EndPort)
+			}
+			v := intstr.FromInt32(int32(base + rapid.SampledFrom([]int{0, 1, 2, 3}).Draw(t, fmt.Sprintf("%s:port%d:gap", label, i))))
+			p = networkingv1.NetworkPolicyPort{Protocol: prev.Protocol, Port: &v}
+			k = "c"
+		}
 		ports = append(ports, p)
 		shape += k
 	}
@@ -889,6 +901,25 @@ func TestVerifC29Conversion(t *testing.T) {
 			return c29EP{ip: p.IP}
 		}
 
+		// connection ports: the fixed universe plus every numeric port / endPort of the policy and its neighbours
+		connPorts := append([]int{}, c29ConnPorts...)
+		addPorts := func(ps []networkingv1.NetworkPolicyPort) {
+			for _, p := range ps {
+				if p.Port != nil && p.Port.Type == intstr.Int {
+					connPorts = append(connPorts, int(p.Port.IntVal)-1, int(p.Port.IntVal), int(p.Port.IntVal)+1)
+				}
+				if p.EndPort != nil {
+					connPorts = append(connPorts, int(*p.EndPort)-1, int(*p.EndPort), int(*p.EndPort)+1)
+				}
+			}
+		}
+		for _, r := range np.Spec.Ingress {
+			addPorts(r.Ports)
+		}
+		for _, r := range np.Spec.Egress {
+			addPorts(r.Ports)
+		}
+
 		nontrivial := false
 		classes := map[string]bool{}
 		if convErr {
@@ -903,7 +934,7 @@ func TestVerifC29Conversion(t *testing.T) {
 						continue
 					}
 					// ports: the fixed universe plus the named-port numbers of the destination
-					ports := append([]int{}, c29ConnPorts...)
+					ports := append([]int{}, connPorts...)
 					dstParty := remote
 					if ingress {
 						dstParty = lp
@@ -961,7 +992,7 @@ func TestVerifC29Conversion(t *testing.T) {
 				}
 			}
 		}
-		for _, tag := range []string{"X", "I", "B", "N", "s", "r", "d", "implicit"} {
+		for _, tag := range []string{"X", "I", "B", "N", "s", "r", "d", "c", "implicit"} {
 			if strings.Contains(shape, tag) {
 				classes["shape-"+tag] = true
 			}
